@@ -544,6 +544,64 @@ func (x *exec) watchdog(stop chan struct{}) {
 	}
 }
 
+// HangWatch watches the main goroutine. Histories (mode H), reference runs and
+// pre-compilation execute the package under test on the main goroutine, where
+// no scheduler can step in: if that goroutine is seen waiting on a
+// synchronisation object inside the package in five looks 200 ms apart, the
+// process can never continue, and report is called with a description (it is
+// expected to write the verdict and exit).
+func HangWatch(report func(detail string)) {
+	go func() {
+		seen := 0
+		last := ""
+		for {
+			time.Sleep(200 * time.Millisecond)
+			buf := make([]byte, 1<<18)
+			n := runtime.Stack(buf, true)
+			dump := string(buf[:n])
+			i := strings.Index(dump, "goroutine 1 [")
+			if i < 0 {
+				seen = 0
+				continue
+			}
+			rest := dump[i+len("goroutine 1 ["):]
+			if end := strings.Index(rest, "\n\ngoroutine "); end >= 0 {
+				rest = rest[:end]
+			}
+			state := rest[:strings.Index(rest, "]")]
+			if j := strings.Index(state, ","); j >= 0 {
+				state = state[:j]
+			}
+			blocking := strings.HasPrefix(state, "chan receive") || strings.HasPrefix(state, "chan send") || strings.HasPrefix(state, "select") ||
+				strings.HasPrefix(state, "sync.") || state == "semacquire"
+			if !blocking || !strings.Contains(rest, "github.com/antchfx/xpath.") || strings.Contains(rest, "verifsimw/run.(*Sim).yield") {
+				seen, last = 0, ""
+				continue
+			}
+			// the innermost frame of the package under test
+			frame := ""
+			for _, l := range strings.Split(rest, "\n") {
+				if strings.HasPrefix(l, "github.com/antchfx/xpath.") {
+					frame = l
+					break
+				}
+			}
+			if frame != last {
+				seen, last = 1, frame
+				continue
+			}
+			seen++
+			if seen >= 5 {
+				if k := strings.Index(frame, "("); k > 0 {
+					frame = frame[:k]
+				}
+				report(fmt.Sprintf("the calling goroutine is blocked for ever (%s) inside %s: nothing is left that could wake it", state, strings.TrimPrefix(frame, "github.com/antchfx/xpath.")))
+				return
+			}
+		}
+	}()
+}
+
 // blockedOutsideSimulator inspects the goroutine's state: waiting (channel,
 // select, Cond, semaphore, ...) but not inside the simulator's own yield.
 func blockedOutsideSimulator(id uint64) bool {
